@@ -2202,3 +2202,27 @@ M('C16','ontwin-start-relocks-only-on-one-branch','runtime/workerpool/workerpool
 		w.ShutdownComplete.Wait()
 """,'lock/', base='C16-22')
 M("C01","ontwin-encoder-tests-kind","serializer/serix/utils.go","""arrType.Elem() == bytesType.Elem()""","""arrType.Elem().Kind() == reflect.Uint8""",'mirror/byte-array-predicate', base='C01-22')
+M('C09','ontwin-helper-reports-absent-on-success','ads/map_impl.go',"""	return has, nil
+}""","""	return false, nil
+}""",'size/accounting', base='C09-22')
+M('C09','ontwin-helper-may-return-nil-error-early','ads/map_impl.go',"""		return false, ierrors.Wrap(err, "failed to update tree")""","""		return false, nil""",'size/', base='C09-22')
+M('C09','ontwin-nil-value-reaches-helper','ads/map_impl.go',"""	if valueBytes == nil {
+		// a nil slice is how the trie reports an absent key, so an empty value must be stored as a non-nil empty slice
+		valueBytes = []byte{}
+	}
+""","""""",'presence/stored-value-non-nil', base='C09-22')
+M('C09','ontwin-helper-tests-after-update','ads/map_impl.go',"""	if has, err = m.has(keyBytes); err != nil {
+		return false, ierrors.Wrap(err, "failed to check if key exists")
+	}
+
+	if err = m.tree.Update(keyBytes, valueBytes); err != nil {
+		return false, ierrors.Wrap(err, "failed to update tree")
+	}
+""","""	if err = m.tree.Update(keyBytes, valueBytes); err != nil {
+		return false, ierrors.Wrap(err, "failed to update tree")
+	}
+
+	if has, err = m.has(keyBytes); err != nil {
+		return false, ierrors.Wrap(err, "failed to check if key exists")
+	}
+""",'size/has-before-mutation', base='C09-22')
